@@ -30,6 +30,8 @@ EXPLANATION = (
   " (DEP-frame) in _process_element the interval of an animation step is resolved against the interval of the element that carries it, and the children receive that element's interval as their parent interval, so the step that is active at t is the one TTML prescribes;"
   ' (STATE-share) no assignment stores a container field of one object (a field the package updates in place) into a field of another object without copying it, so an in-place update of one object never changes another;'
   " (ITEM-source) an object built once per item of an inner loop is filled only with values that derive from that item or do not vary with the loops, never with a value of the enclosing container standing where the item's own belongs;"
+  ' (LOOP-break) no loop over the items of a collection is left by a branch that does nothing but `break` on a test about the item (end-of-input sentinels, flags set in the loop body and searches whose variable is read afterwards excepted): an item that is to be skipped does not end the processing of the items after it;'
+  ' (PAIR-compute) as in C13: every uncomputed value copied onto the ISD element (animated, specified, initial, direction semantics) is registered for computation on every path through the copy;'
 )
 RULE_TEXT = "per ordering pair, guard, property x {inherited, initial, applies-to}, _compute_length call site, unit"
 UNDECIDED = ["numeric values (em-of-%-of-c chains, position edge arithmetic, ruby half size)", "tts:disparity applicability (not established from the specification)"]
@@ -387,5 +389,7 @@ def run(ctx):
   # ... and its interval is resolved against the element that carries the step
   nf = isdrules.check_frames(ctx, ctx.ix.func("ttconv.isd:ISD._process_element"), recursive_name="_process_element")
   ctx.floor("DEP-frame", "frame agreement sites in _process_element", nf, 2)
+  from . import c13 as _c13
+  _c13.check_compute_bookkeeping(ctx)
   shape.check_cache_keys(ctx, common.funcs(ctx, ["ttconv.isd"]))
   common.check_history_independence(ctx, common.CORE)
